@@ -88,6 +88,28 @@ pub fn run_enc(w: &[&str]) -> String {
     }
 }
 
+/// `tokencs <tok>,<tok>,...`: the SAME calls as `tokenc`, but issued as several calls on one Encoder: fragments of 2, 1, 3, 2, 1, 3 …
+/// tokens, the fragments of length != 1 through `Encoder::tokens`, the single ones through `Encoder::encode(&token)`.
+/// A balanced call sequence denotes the same items however it is split over calls.
+pub fn run_enc_split(w: &[&str]) -> String {
+    if w.len() != 1 { return "bad-op".into() }
+    let owned: Option<Vec<OTok>> = if w[0] == "-" { Some(Vec::new()) } else { w[0].split(',').map(parse).collect() };
+    let owned = match owned { Some(o) => o, None => return "bad-op".into() };
+    let toks: Vec<Token<'_>> = owned.iter().map(OTok::borrow).collect();
+    let n: usize = toks.iter().map(|t| minicbor::len(t)).sum();
+    let mut e = Encoder::new(Vec::new());
+    let (mut i, mut k) = (0usize, 0usize);
+    let sizes = [2usize, 1, 3];
+    while i < toks.len() {
+        let j = (i + sizes[k % 3]).min(toks.len());
+        k += 1;
+        let r = if j - i == 1 { e.encode(&toks[i]).map(|_| ()) } else { e.tokens(toks[i .. j].iter()) };
+        if let Err(x) = r { return format!("err {} len={}", eclass(&x), n) }
+        i = j;
+    }
+    format!("{} len={}", hex(e.writer()), n)
+}
+
 pub fn run_dec(w: &[&str]) -> String {
     let input = match w.first().and_then(|h| unhex(h)) { Some(b) if w.len() == 1 => b, _ => return "bad-op".into() };
     let mut d = Decoder::new(&input);
